@@ -3,10 +3,20 @@
    AllChangesIter (iter_all_changes) never panics; the values of its
    non-Insert changes concatenate to the old text and those of its non-Delete
    changes to the new text; the indices it reports enumerate the tokens of
-   each side. *)
+   each side.
+     B1 [text_reconstruct], B2 [change_index_shape] (both from
+     [items_reconstruct], over arbitrary item lists): any loosely valid ops.
+     B3 [textdiff_reconstruct_partition], [textdiff_reconstruct]: the ops
+     returned by textdiff_ops (TextDiffConfig::diff), every algorithm, clock,
+     build mode and repair switch; these two go through
+     Identify.textdiff_eq_tokens_diff and hence depend on
+     functional_extensionality_dep. *)
 From Coq Require Import NArith.
 From Similar Require Import Model.Base Model.Iter Model.Tokenize Model.Capture Model.TextDiff
      Spec.Script Check.Tokens Proofs.Utils Proofs.CheckScript Proofs.Iter Proofs.Remap.
+From Similar Require Import Model.Utf8 Spec.SnakeSpec Proofs.Pipeline Proofs.PatienceCapture.
+(* Required only (not imported): Proofs.Utf8 has its own [seg] *)
+From Similar Require Proofs.Tokenize Proofs.Identify.
 
 Local Open Scope nat_scope.
 
@@ -305,3 +315,97 @@ Section Text.
     repeat split; assumption.
   Qed.
 End Text.
+
+(* ------------------------------------------------------------------ *)
+(* B3: end to end                                                      *)
+(* ------------------------------------------------------------------ *)
+
+(* what C04 says about the changes of one op list *)
+Definition TextRecon (osrc nsrc : list N) (otoks ntoks : list token) (ops : list op) : Prop :=
+  let olds := map (tok_bytes osrc) otoks in
+  let news := map (tok_bytes nsrc) ntoks in
+  exists cs,
+    iter_all_changes (slice_lookup olds) (slice_lookup news) ops = Ok cs /\
+    concat (map ch_val (filter old_side_ch cs)) = osrc /\
+    concat (map ch_val (filter new_side_ch cs)) = nsrc /\
+    Forall (change_ok olds news) cs /\
+    map ch_old (filter old_side_ch cs) = map Some (seq 0 (length olds)) /\
+    map ch_new (filter new_side_ch cs) = map Some (seq 0 (length news)).
+
+Lemma text_recon_loose osrc nsrc otoks ntoks ops :
+  check_partition otoks 0 (length osrc) = true ->
+  check_partition ntoks 0 (length nsrc) = true ->
+  OpsLoose (cmp_of bytes_eqb (slice_lookup (map (tok_bytes osrc) otoks))
+                             (slice_lookup (map (tok_bytes nsrc) ntoks)))
+           0 (length (map (tok_bytes osrc) otoks)) 0 (length (map (tok_bytes nsrc) ntoks)) ops ->
+  TextRecon osrc nsrc otoks ntoks ops.
+Proof.
+  intros Ho Hn Hw.
+  destruct (text_reconstruct osrc nsrc otoks ntoks Ho Hn ops Hw) as (cs & Hcs & Hov & Hnv).
+  destruct (change_index_shape osrc nsrc otoks ntoks ops cs Hw Hcs) as (Hok & Hoi & Hni).
+  exists cs. repeat split; assumption.
+Qed.
+
+(* any token lists that partition the two texts (this is all that is assumed
+   of the unicode-words / graphemes tokenizers, which are not modelled) *)
+Theorem textdiff_reconstruct_partition osrc nsrc otoks ntoks alg dl dbg repair ops c :
+  check_partition otoks 0 (length osrc) = true ->
+  check_partition ntoks 0 (length nsrc) = true ->
+  let olds := map (tok_bytes osrc) otoks in
+  let news := map (tok_bytes nsrc) ntoks in
+  textdiff_ops alg dl dbg repair
+    (oracles_of_items bytes_eqb (slice_lookup olds) (slice_lookup news))
+    (length olds) (length news) = Ok (ops, c) ->
+  (OpsLoose (cmp_of bytes_eqb (slice_lookup olds) (slice_lookup news))
+            0 (length olds) 0 (length news) ops /\ Alternating ops) /\
+  TextRecon osrc nsrc otoks ntoks ops.
+Proof.
+  intros Ho Hn olds news H.
+  rewrite Proofs.Identify.textdiff_eq_tokens_diff in H. cbv zeta in H.
+  assert (Htot : CmpTotal (cmp_of bytes_eqb (slice_lookup olds) (slice_lookup news))
+                          0 (length olds) 0 (length news))
+    by (apply CmpTotal_cmp_of; apply le_n).
+  destruct (capture_valid_all alg dl dbg repair
+              (oracles_of_items bytes_eqb (slice_lookup olds) (slice_lookup news))
+              0 (length olds) 0 (length news) ops c
+              (Nat.le_0_l _) (Nat.le_0_l _) Htot H) as [Hw Halt].
+  cbn [o_on oracles_of_items] in Hw.
+  split; [split; assumption|]. apply text_recon_loose; assumption.
+Qed.
+
+(* the modelled tokenizers: bytes on any input, str on valid UTF-8 *)
+Theorem textdiff_reconstruct (bytes_mode : bool) (k : tokenizer) osrc nsrc alg dl dbg repair ops c :
+  (bytes_mode = false -> valid_utf8 osrc = true /\ valid_utf8 nsrc = true) ->
+  let otoks := tokenize bytes_mode k osrc in
+  let ntoks := tokenize bytes_mode k nsrc in
+  let olds := map (tok_bytes osrc) otoks in
+  let news := map (tok_bytes nsrc) ntoks in
+  textdiff_ops alg dl dbg repair
+    (oracles_of_items bytes_eqb (slice_lookup olds) (slice_lookup news))
+    (length olds) (length news) = Ok (ops, c) ->
+  (OpsLoose (cmp_of bytes_eqb (slice_lookup olds) (slice_lookup news))
+            0 (length olds) 0 (length news) ops /\ Alternating ops) /\
+  TextRecon osrc nsrc otoks ntoks ops.
+Proof.
+  intros Hv otoks ntoks olds news H.
+  assert (Hp : check_partition otoks 0 (length osrc) = true /\
+               check_partition ntoks 0 (length nsrc) = true).
+  { unfold otoks, ntoks. destruct bytes_mode.
+    - pose proof (Proofs.Tokenize.tok_bytes_ok k osrc) as H1.
+      pose proof (Proofs.Tokenize.tok_bytes_ok k nsrc) as H2.
+      unfold check_tokens in H1, H2.
+      apply Bool.andb_true_iff in H1. apply Bool.andb_true_iff in H2. now split.
+    - destruct (Hv eq_refl) as [Hvo Hvn].
+      pose proof (Proofs.Tokenize.tok_str_ok k osrc Hvo) as H1.
+      pose proof (Proofs.Tokenize.tok_str_ok k nsrc Hvn) as H2.
+      unfold check_tokens in H1, H2.
+      apply Bool.andb_true_iff in H1. apply Bool.andb_true_iff in H2. now split. }
+  destruct Hp as [Hpo Hpn].
+  exact (textdiff_reconstruct_partition osrc nsrc otoks ntoks alg dl dbg repair ops c Hpo Hpn H).
+Qed.
+
+Print Assumptions text_reconstruct.
+Print Assumptions change_index_shape.
+Print Assumptions items_reconstruct.
+Print Assumptions textdiff_reconstruct_partition.
+Print Assumptions textdiff_reconstruct.
